@@ -27,7 +27,7 @@ func (r i64range[T]) contains(v T) bool {
 
 // add adds [start, end) to the set, combining it with existing ranges if necessary.
 func (s *rangeset[T]) add(start, end T) {
-	if start == end {
+	if start >= end {
 		return
 	}
 	for i := range *s {
@@ -65,7 +65,7 @@ func (s *rangeset[T]) add(start, end T) {
 
 // sub removes [start, end) from the set.
 func (s *rangeset[T]) sub(start, end T) {
-	if start == end {
+	if start >= end {
 		return
 	}
 	removefrom, removeto := -1, -1
